@@ -44,6 +44,9 @@ func TestMain(m *testing.M) {
 	glue.SilenceKlog()
 	glue.LoadRegistry()
 	if rp := ev.LoadReplay(); rp != nil {
+		if rp.Phase == "real_clock" {
+			ev.RunReplay(rp, runReal)
+		}
 		ev.RunReplay(rp, func(c Case) *ev.Failure { return runCase(c, nil) })
 	}
 	rec = ev.New("C10", "histories over 2 ids x 2 observation domains of {template, replacement, undecodable template, data, clock advance by 0 / 1 / TTL-1 / TTL / 2*TTL, start of a fired timer's callback (it parks after reading the clock), finish of the parked callback, atomic callback run} against a UDP collecting process whose clock and timers are owned by the harness: exhaustive over a reduced alphabet to depth 5 (quick) / 6 (thorough), rapid histories to depth 60; after every action the template table, stored expiry times and the clock's timer table are checked (never dropped early, gone once the lifetime elapsed and the callback ran, exactly one armed timer or a pending/in-flight callback per stored template, no armed timer for removed ones); non-trivial = a refresh, replacement or invalidation happened between a timer firing and its callback finishing; distinct by hash of the case",
@@ -83,6 +86,9 @@ func runCase(c Case, st *Stats) *ev.Failure {
 	vars := variants()
 	t0 := time.Unix(1700000000, 0)
 	clk := glue.NewHClock(t0)
+	clk.LogYield = true
+	glue.YieldOnLogs(clk)
+	defer glue.YieldOnLogs(nil)
 	col := glue.NewColEnc("udp", collector.DecodingModeStrict, clk, uint32(c.TTL), c.Encrypted)
 	ttl := time.Duration(c.TTL) * time.Second
 	if c.TTL == 0 { // not configured: the documented default of 1800 s applies
@@ -98,6 +104,25 @@ func runCase(c Case, st *Stats) *ev.Failure {
 			return dr, ev.Failf("op %d: decoder crashed or hung: %s%s", i, dr.Panic, dr.HungWhy)
 		}
 		return dr, nil
+	}
+	// finished: the model's step when a callback has returned. The decision the library takes under
+	// its lock compares the expiry time then in force with the time the callback read earlier.
+	finished := func(cb *glue.HCallback) *ev.Failure {
+		tk, _ := cb.Timer.Tag.(glue.TplKey)
+		if m := model[tk]; m != nil && cb.Parked && !m.lastRefresh.Add(ttl).After(cb.SawNow) {
+			delete(model, tk)
+			st.Expired = true
+		}
+		still := false
+		for _, p := range clk.Pending {
+			if p.Timer.Tag == cb.Timer.Tag {
+				still = true
+			}
+		}
+		if !still {
+			delete(firedUnfinished, tk)
+		}
+		return nil
 	}
 	for i, o := range c.Ops {
 		k := keys[o.Key%len(keys)]
@@ -170,12 +195,43 @@ func runCase(c Case, st *Stats) *ev.Failure {
 					firedUnfinished[tk] = true
 				}
 			}
-		case "start", "run":
+		case "step":
+			// the parked callback runs on to its next yield point (a clock read or a log line)
+			if clk.InFlight == nil {
+				break
+			}
+			cb := clk.InFlight
+			ok, done := clk.Step(limit)
+			if !ok {
+				return ev.Failf("op %d: timer callback neither reached another yield point nor returned within %v after being released (deadlock?)", i, limit)
+			}
+			if done {
+				if fl := finished(cb); fl != nil {
+					return fl
+				}
+			}
+		case "start", "startlog", "run":
 			if clk.InFlight != nil || len(clk.Pending) == 0 {
 				break
 			}
 			if !clk.Start(o.Idx%len(clk.Pending), limit) {
 				return ev.Failf("op %d: timer callback neither read the clock nor returned within %v", i, limit)
+			}
+			if o.Kind == "startlog" { // parked at its first yield point, whatever that is
+				break
+			}
+			// "start": parked right after its clock read (log lines on the way are passed)
+			for cb := clk.InFlight; cb != nil && cb.AtLog && clk.InFlight == cb; {
+				ok, done := clk.Step(limit)
+				if !ok {
+					return ev.Failf("op %d: timer callback stuck after a log line", i)
+				}
+				if done {
+					if fl := finished(cb); fl != nil {
+						return fl
+					}
+					break
+				}
 			}
 			if o.Kind == "start" {
 				break
@@ -189,19 +245,8 @@ func runCase(c Case, st *Stats) *ev.Failure {
 			if !clk.Finish(limit) {
 				return ev.Failf("op %d: timer callback did not return within %v after being released (deadlock?)", i, limit)
 			}
-			tk, _ := cb.Timer.Tag.(glue.TplKey)
-			if m := model[tk]; m != nil && cb.Parked && !m.lastRefresh.Add(ttl).After(cb.SawNow) {
-				delete(model, tk)
-				st.Expired = true
-			}
-			still := false
-			for _, p := range clk.Pending {
-				if p.Timer.Tag == cb.Timer.Tag {
-					still = true
-				}
-			}
-			if !still {
-				delete(firedUnfinished, tk)
+			if fl := finished(cb); fl != nil {
+				return fl
 			}
 		}
 		if f := checkState(i, o, col, clk, model, ttl); f != nil {
@@ -293,7 +338,7 @@ func TestC10(t *testing.T) {
 	alphabet := []Op{
 		{Kind: "tpl", Key: 0}, {Kind: "tpl", Key: 0, Var: 1}, {Kind: "tpl", Key: 0, Var: 2}, {Kind: "tpl", Key: 1}, {Kind: "bad", Key: 0}, {Kind: "data", Key: 0}, {Kind: "data", Key: 1},
 		{Kind: "adv", D: ttl - 1}, {Kind: "adv", D: 1}, {Kind: "adv", D: ttl},
-		{Kind: "start"}, {Kind: "finish"}, {Kind: "run"}, {Kind: "run", Idx: 1},
+		{Kind: "start"}, {Kind: "finish"}, {Kind: "run"}, {Kind: "run", Idx: 1}, {Kind: "startlog"}, {Kind: "step"},
 	}
 	depth := 5
 	if rec.Thorough() {
@@ -348,7 +393,11 @@ func TestC10(t *testing.T) {
 			eff = 1800
 		}
 		for n := rapid.IntRange(2, 60).Draw(t, "n"); n > 0; n-- {
-			switch k := rapid.IntRange(0, 13).Draw(t, "op"); {
+			switch k := rapid.IntRange(0, 15).Draw(t, "op"); {
+			case k == 14:
+				c.Ops = append(c.Ops, Op{Kind: "startlog", Idx: rapid.IntRange(0, 3).Draw(t, "idx")})
+			case k == 15:
+				c.Ops = append(c.Ops, Op{Kind: "step"})
 			case k <= 2:
 				c.Ops = append(c.Ops, Op{Kind: "tpl", Key: rapid.IntRange(0, 3).Draw(t, "key"), Var: rapid.SampledFrom([]int{0, 0, 1, 1, 2}).Draw(t, "var")})
 			case k == 3:
